@@ -170,6 +170,11 @@ func (w *world) token(prefix string) string {
 func (w *world) genAttr(depth int) slog.Attr {
 	ch := simrt.Choose
 	key := w.token("k")
+	if ch("attr.longkey", 8) == 0 {
+		// key paths longer than the handlers' scratch buffers (32 bytes)
+		simrt.Probe("long_key_path")
+		key += "_" + strings.Repeat("y", 20+ch("attr.longkey.n", 30))
+	}
 	n := 15
 	if depth >= 2 {
 		n = 11
@@ -473,6 +478,10 @@ func (w *world) derive(by string) {
 		return
 	} else if k%3 == 0 {
 		s.group = w.token("g")
+		if ch("derive.longgroup", 6) == 0 {
+			simrt.Probe("long_key_path")
+			s.group += "_" + strings.Repeat("z", 15+ch("derive.longgroup.n", 30))
+		}
 	} else {
 		s.attrs = w.genAttrs(1+ch("derive.n", 3), 0)
 		s.args = toArgs(s.attrs)
